@@ -830,3 +830,21 @@ Proof.
     + rewrite zlist_eqb_refl, !orb_true_r. reflexivity.
     + unfold cr2sp. rewrite map_app. cbn [map Z.eqb Pos.eqb]. rewrite zlist_eqb_refl, !orb_true_r. reflexivity.
 Qed.
+
+(* the two pixel functions alone, any image width *)
+Lemma holds_pixels_model w rows pd : wf_rows w rows -> Forall byte pd -> (length pd <= w * length rows)%nat ->
+  exists out back, rows_of_picodata_fast pd 4 rows = Ok out /\
+    picodata_of_rows_fast (Z.of_nat w) (zlen out) 4 out = Ok back /\
+    holds_C04_pixels pd rows out back = true.
+Proof.
+  intros Hwf Hpd Hle. destruct (pack_rows_props w rows pd Hwf Hpd Hle) as ((extra & P1) & P2 & P3 & P4).
+  exists (pack_rows w rows pd), (concat (map unpack_row (pack_rows w rows pd))).
+  split; [rewrite rows_fast_eq; apply rows_of_picodata_spec; assumption|].
+  split; [rewrite picodata_fast_eq; apply picodata_of_rows_spec; exact P3|].
+  unfold holds_C04_pixels. rewrite rom_unpack, P1.
+  rewrite firstn_app_le by lia. rewrite firstn_all, !zlist_eqb_refl.
+  change (label_of (pack_rows w rows pd)) with (map (map (fun v => v / 4)) (pack_rows w rows pd)).
+  change (label_of rows) with (map (map (fun v => v / 4)) rows). rewrite P2, rows_eqb_refl. cbn [andb].
+  apply forallb_forall. intros row Hin. unfold wf_rows in P3. rewrite Forall_forall in P3.
+  apply all_bytes_Forall. apply (P3 row Hin).
+Qed.
